@@ -40,6 +40,8 @@ Arguments in_rangeb : simpl never.
 Arguments run_loop : simpl never.
 Arguments loop1 : simpl never.
 Arguments exp_elem : simpl never.
+Arguments error_calls : simpl never.
+Arguments exp_error_field : simpl never.
 Arguments self_equal : simpl nomatch.
 Arguments in_typeb t v : simpl nomatch.
 Arguments payload_self t v : simpl nomatch.
@@ -69,6 +71,68 @@ Qed.
 (* ---------- loops over slices ---------- *)
 Lemma norm_calls_app a b : norm_calls (a ++ b) = norm_calls a ++ norm_calls b.
 Proof. unfold norm_calls. apply map_app. Qed.
+
+(* ---------- errors ---------- *)
+(* induction over what an error exposes: the members of a group are errors again *)
+Section EInfoInd.
+  Variable P : einfo -> Prop.
+  Definition Pm (o : option einfo) : Prop := match o with Some x => P x | None => True end.
+  Hypothesis HMsg : forall m v c, Forall Pm (match c with Some l => l | None => [] end) -> P (EMsg m v c).
+  Hypothesis HNilPanic : P ENilPanic.
+  Hypothesis HPanic : forall p, P (EPanic p).
+  Fixpoint einfo_ind' (e : einfo) : P e :=
+    match e with
+    | EMsg m v c =>
+        HMsg m v c
+          (match c as c0 return Forall Pm (match c0 with Some l => l | None => [] end) with
+           | None => Forall_nil Pm
+           | Some l =>
+               (fix go (l : list (option einfo)) : Forall Pm l :=
+                  match l with
+                  | [] => Forall_nil Pm
+                  | o :: r => Forall_cons o (match o as o0 return Pm o0 with Some x => einfo_ind' x | None => I end) (go r)
+                  end) l
+           end)
+    | ENilPanic => HNilPanic
+    | EPanic p => HPanic p
+    end.
+End EInfoInd.
+
+(* the loop over the members of a group: member-wise agreement gives agreement of the loops,
+   the point where a failing member ends the loop included *)
+Lemma members_rel f d l :
+  Forall (Pm (fun x => d x = (norm_calls (fst (f x)), snd (f x)))) l ->
+  exp_members d l = (norm_calls (fst (members f l)), snd (members f l)).
+Proof.
+  induction 1 as [|[x|] r Hx Hr IH]; [reflexivity| |exact IH].
+  cbn in Hx. cbn [exp_members members]. fold (exp_members d r). fold (members f r). rewrite Hx. cbn [fst snd].
+  destruct (snd (f x)); [reflexivity|]. rewrite IH. reflexivity.
+Qed.
+
+(* for EVERY error -- any message, Formatter or not, any group of any depth, nil pointers and
+   panicking Error methods anywhere in it -- and every key: what encodeError does to the encoder is,
+   up to method classes, the specified delivery of that error, and it fails exactly when specified *)
+Lemma norm_enc_error : forall e k, exp_err k e = (norm_calls (fst (enc_error k e)), snd (enc_error k e)).
+Proof.
+  induction e using einfo_ind'; intros k; [|reflexivity|reflexivity].
+  destruct c as [l|].
+  - cbn [exp_err enc_error]. rewrite (members_rel (fun x => enc_error ($"error") x) (fun x => exp_err ($"error") x) l).
+    + destruct v; reflexivity.
+    + induction H as [|[x|] r Hx Hr IH]; constructor; try exact IH; [apply Hx|exact I].
+  - destruct v as [t|]; [|reflexivity]. cbn. destruct (bytes_eqb t m); reflexivity.
+Qed.
+
+(* ... and the same for the whole ErrorType field (AddTo's epilogue included) *)
+Lemma norm_error_calls k e : norm_calls (error_calls k e) = exp_error_field k e.
+Proof.
+  unfold error_calls, exp_error_field. rewrite norm_enc_error. cbn [fst snd].
+  destruct (snd (enc_error k e)); [|rewrite app_nil_r; reflexivity].
+  rewrite norm_calls_app. reflexivity.
+Qed.
+(* the form in which it appears once [norm_calls] has been unfolded by evaluation *)
+Lemma norm_error_calls' k e :
+  map (fun c : call => match c with (m, k, x) => (class_of m, k, norm_val x) end) (error_calls k e) = exp_error_field k e.
+Proof. exact (norm_error_calls k e). Qed.
 
 (* element-wise agreement at EVERY position gives agreement of the loops (the position matters:
    an element may be delivered by address) *)
@@ -131,14 +195,15 @@ Ltac loops := try match goal with
         intros i x Hx; apply (forallb_In _ _ _ Hl) in Hx;
         destruct x; cbn in Hx; try discriminate Hx;
         repeat match goal with o : opq |- _ => destruct o end;
-        cbn [loop1 exp_elem]; cbn; eexists; split; reflexivity
+        cbn [loop1 exp_elem]; cbn; (eexists; split; [reflexivity|]);
+        cbn; rewrite ?norm_error_calls, ?norm_error_calls'; reflexivity
       | destruct (oconcati_rel (loop1 loc A L a) (exp_elem t a) l H 0) as (cs & E1 & E2);
         unfold run_loop; rewrite E1; cbn; try rewrite E2 ]
   end.
 
 Ltac finish :=
   split; [reflexivity|];   (* the same Field under any other ambient state *)
-  split; [cbn; wraps; try reflexivity|];
+  split; [cbn; wraps; rewrite ?norm_error_calls, ?norm_error_calls'; try reflexivity|];
   split; [reflexivity|];
   cbn; try (intros _; reflexivity); try tauto;
   try (apply slice_self; assumption).
